@@ -10,10 +10,14 @@ class MatrixOfCellIdentifiersExpressionTokenTranslator(AbstractTranslator):
         from excel2pycl.src.translators.matrix_of_cell_identifiers_token_translator import \
             MatrixOfCellIdentifiersTokenTranslator
 
-        left, right = token.operands
+        # A1:A3&B1:B3&C1:C3 is nested to the right: A1:A3 & (B1:B3 & C1:C3)
+        left, rest = token.value[0], token.value[2]
 
         list1 = MatrixOfCellIdentifiersTokenTranslator.translate(left, excel, context)
-        list2 = MatrixOfCellIdentifiersTokenTranslator.translate(right, excel, context)
+        if len(rest.value) == 1:
+            list2 = MatrixOfCellIdentifiersTokenTranslator.translate(rest.value[0], excel, context)
+        else:
+            list2 = cls.translate(rest, excel, context)
 
         return context.set_sub_cell(
             token.in_cell, f'self._concat_arrays_values(self._flatten_list({list1}), self._flatten_list({list2}))'
